@@ -15,8 +15,8 @@ import random
 from checks import e2e_common
 
 TIE_PARTS = ["IstioModel.C01.GenTie" + x for x in ("T1", "T2", "T3", "T4", "T5", "T6", "T7", "P1", "P2", "P3", "P4", "P5", "P6", "S")]
-THEOREMS = TIE_PARTS + ["IstioModel.C01.GenTie", "IstioModel.C01.Theorems", "IstioModel.C01.ProtocolTheorems",
-                        "IstioModel.C01.Instantiation"]
+THEOREMS = TIE_PARTS + ["IstioModel.C01.GenTie", "IstioModel.C01.Theorems", "IstioModel.C01.NarrowTheorems",
+                        "IstioModel.C01.ProtocolTheorems", "IstioModel.C01.ProtocolV2Theorems", "IstioModel.C01.Instantiation"]
 GENERATED = "IstioModel/Generated/C01Table.lean"
 
 
@@ -230,6 +230,89 @@ def converge_minimise(ctx, case, verdict, budget=10):
     return best, best_v
 
 
+def rebuild_verdicts(ctx, case_list, tag):
+    ops = os.path.join(ctx.work, "rebuild.%s.ops" % tag)
+    out = ops + ".verdict"
+    with open(ops, "w") as f:
+        for c in case_list:
+            f.write("\n".join(c) + "\n")
+    if os.path.exists(out):
+        os.remove(out)
+    rc, log = ctx.harness("oracle", "rebuild", ops, out, timeout=3000)
+    v = ctx.read_lines(out) if os.path.exists(out) else []
+    if rc != 0 or len(v) != len(case_list):
+        return None, log
+    return v, log
+
+
+def after_step(verdict):
+    for p in verdict.split():
+        if p.startswith("after-step="):
+            return int(p.split("=")[1])
+    return 0
+
+
+def run_rebuild(ctx, nsteps):
+    """Stream `rebuild` (RebuildOK on the real code): walks through the grammar on one real server; after every step the real
+    generators under the server's own, partially rebuilt PushContext vs under a from-scratch PushContext of the same env."""
+    st = {"cases": 0, "ops": 0, "agree": True}
+    ctx.streams["rebuild"] = st
+    g = os.path.join(ctx.work, "rebuild.gen.ops")
+    if os.path.exists(g):
+        os.remove(g)
+    rc, log = ctx.harness("gen", "rebuild", ctx.seed, nsteps, g)
+    if rc != 0 or not os.path.exists(g):
+        ctx.tie_broken("harness-gen:rebuild", log)
+        return
+    cases = split_cases(ctx.read_lines(g))
+    verdicts, log = rebuild_verdicts(ctx, cases, "run")
+    if verdicts is None:
+        ctx.tie_broken("stream-run:rebuild", "the rebuild oracle did not complete:\n" + log[-3000:])
+        st["agree"] = False
+        return
+    for i, (c, v) in enumerate(zip(cases, verdicts)):
+        st["cases"] += 1
+        st["ops"] += len(c)
+        ctx.note_case("rebuild\n" + "\n".join([c[0].split(" ", 2)[-1]] + c[1:]) + "\n" + v.split(" ||")[0], True,
+                      {"stream": "rebuild", "ops": c[:8], "verdict": v[:200]} if i == 0 else None)
+        if not v.startswith("FAIL"):
+            continue
+        ctx.log("rebuild walk %d: %s" % (i, v[:400]))
+        clause = v.split()[1]
+        # shrink: the prefix up to the failing step, then drop earlier steps while the same clause still fails at the end
+        small, small_v = [c[0]] + c[1:1 + after_step(v)], v
+        rv, _ = rebuild_verdicts(ctx, [small], "confirm")
+        if not (rv and rv[0].startswith("FAIL " + clause)):
+            ctx.count("rebuild.unreproduced-differences")
+            if not unreproduced_is_verdict(ctx, "rebuild:" + clause, c, v):
+                ctx.log("rebuild walk %d: the difference did not show again - not reported" % i)
+                continue
+        else:
+            small_v = rv[0]
+            small = [small[0]] + small[1:1 + after_step(small_v)]
+            budget, chunk = 14, max(1, (len(small) - 2) // 2)
+            while chunk >= 1 and budget > 0:
+                j, progressed = 1, False
+                while j < len(small) - 1 and budget > 0:
+                    cand = small[:j] + small[j + chunk:-1] + small[-1:] if j + chunk < len(small) else small[:j] + small[-1:]
+                    budget -= 1
+                    cv, _ = rebuild_verdicts(ctx, [cand], "shrink")
+                    if len(cand) > 1 and cv and cv[0].startswith("FAIL " + clause) and after_step(cv[0]) == len(cand) - 1:
+                        small, small_v, progressed = cand, cv[0], True
+                    else:
+                        j += chunk
+                chunk = chunk // 2 if not progressed or chunk > 1 else 0
+        st["agree"] = False
+        types = sorted(set(tok.split("/")[1] for tok in small_v.split()[2].replace("%2F", "/").split(",") if tok.count("/") >= 2))
+        last = small[-1].split()
+        changed = (last[1] + "-" + last[2].split("-")[0]) if last[0] == "step" else "initial"
+        ctx.violation("rebuild:%s:%s:%s" % (clause, "+".join(types), changed),
+                      "the server's partially rebuilt PushContext generates other resources than a from-scratch PushContext of the "
+                      "same environment: " + small_v.split(" ||")[0][:300],
+                      {"stream": "rebuild", "ops": small, "oracle_verdict": small_v[:6000], "original_case": c[:1 + after_step(v)]}, True)
+    ctx.log("stream rebuild: %d walks, %d steps, %s" % (st["cases"], st["ops"] - st["cases"], "rebuild = build everywhere" if st["agree"] else "DIFFERENCES"))
+
+
 UNREPRODUCED_LIMIT = 3
 
 
@@ -384,9 +467,11 @@ def run(ctx):
         return
     n = ctx.n(3000, 60000)
     ctx.diff_stream("needs", n, oracle=oracle)
+    # the narrowing of partial EDS pushes: real EdsGenerator.Generate vs Narrow.lean; oracle: a skipped cluster is unchanged
+    ctx.diff_stream("edsnarrow", ctx.n(250, 12000), oracle=oracle)
     run_converge(ctx, ctx.n(30, 400))
     run_converge(ctx, ctx.n(12, 150), ambient=True)
-    tie_broken = (not proved) or not ctx.streams.get("needs", {}).get("agree", True)
+    tie_broken = (not proved) or not all(ctx.streams.get(x, {}).get("agree", True) for x in ("needs", "edsnarrow"))
 
     def found():
         return any(v["found"] and v["fingerprint"].startswith("converge") for v in ctx.violations)
@@ -401,10 +486,12 @@ def run(ctx):
     e2e_common.run(ctx, "c01", ctx.n(12, 200))
     # the property-level oracle (order independence, monotonicity in keys and under merging, Forced) runs on every generated
     # case as a second line, independently of the model
-    g = os.path.join(ctx.work, "needs.gen.ops")
-    if os.path.exists(g):
-        for f in oracle_file(ctx, "needs", g, limit=3):
-            ctx.violation(f[0], f[1], f[2], True)
+    for stream in ("needs", "edsnarrow"):
+        g = os.path.join(ctx.work, "%s.gen.ops" % stream)
+        if os.path.exists(g):
+            for f in oracle_file(ctx, stream, g, limit=3):
+                ctx.violation(f[0], f[1], f[2], True)
+    run_rebuild(ctx, ctx.n(180, 4000))
 
 
 def replay(ctx, path):
@@ -418,6 +505,14 @@ def replay(ctx, path):
         ctx.log("replay file has no ops; re-running the full check")
         return run(ctx)
     if not (ctx.build_drv() and ctx.go_build()):
+        return
+    if stream == "rebuild":
+        v, log = rebuild_verdicts(ctx, split_cases(ops), "replay")
+        for line in (v or []):
+            ctx.log("replay: %s" % line[:400])
+            if line.startswith("FAIL"):
+                ctx.violation(obj.get("fingerprint", "rebuild:replay"), "replayed walk: " + line.split(" ||")[0][:300],
+                              {"stream": "rebuild", "ops": ops, "oracle_verdict": line[:6000]}, True)
         return
     if stream == "converge":
         v, log = converge_verdicts(ctx, split_cases(ops), "replay")
@@ -447,23 +542,32 @@ def replay(ctx, path):
 MANIFEST = {
     "level_text": ("Lean 4 proof in two layers. (a) The push-decision logic (DefaultProxyNeedsPush/filterRelevantUpdates/"
                    "proxyDependentOnConfig, SidecarScope.DependsOnConfig, the per-type skip tables and cds/eds/lds/rds/nds/ecds/sds/"
-                   "pcdsNeedsPush, canSendPartialFullPushes, waypointNeedsPush, computeProxyState, pushConnection, PushOrder) is modelled "
-                   "branch for branch; theorems give closed forms for all key sets, independence of Go's map order (needsPush_perm family), "
-                   "monotonicity incl. merged requests (needsPush_mono family) and skip_sound_table: wherever the real code skips, the "
-                   "hand-written dependency relation Affects is false. The model equals the real functions on the whole single-key domain "
-                   "(386k evaluations regenerated from /repo on every run, decide +kernel). (b) convergence: over an abstract generator, for "
-                   "every finite history and every batching/interleaving of change/flush/dequeue/pushDone, every quiescent state has every "
-                   "client holding gen(finalWorld) provided skips are sound for gen (SkipOK / Frame); skip_preserves; convergence_model "
-                   "instantiates the decision with the modelled one and reduces the hypothesis to single-key table rows. The frame "
-                   "hypothesis for the REAL generators is validated, not proved: long-lived clients vs fresh clients and a cold-started "
-                   "second FakeDiscoveryServer after random histories over every config kind of the quantifier."),
-    "level_note": ("Partial: the generators, the partial PushContext rebuild and the xDS cache are not modelled (covered only by the converge "
-                   "differential: 40 histories quick / 1500 thorough, sidecar and router proxies, CDS/EDS/LDS/RDS/NDS, SotW); waypoint/"
-                   "ztunnel only at the decision level. Trusted: Lean kernel + {propext, Quot.sound}; the hand-written model (tied by the "
-                   "exhaustive table and the needs stream); Spec.Affects (written from the generators); pilot/pkg/xds/zz_verif_c01.go; "
-                   "feature flags at defaults. Two defects found and fixed in /repo (3f2fe0c, 7cce3d7), one known finding "
-                   "(stale SAN after the last endpoint of a shard disappears)."),
-    "technique": ("Lean 4 theorems over an exact model of the push-decision logic and an abstract convergence protocol + exhaustive "
-                  "generated decision table (decide +kernel) + differential correspondence + cold-start differential on real servers"),
+                   "pcdsNeedsPush, canSendPartialFullPushes, waypointNeedsPush, computeProxyState, pushConnection as a whole incl. the "
+                   "refresh-before-filter order, the narrowing of partial EDS pushes, PushOrder) is modelled branch for branch; theorems "
+                   "give closed forms for all key sets, independence of Go's map order, monotonicity incl. merged requests, "
+                   "narrow_skip_sound, and skip_sound_table_partial (wherever the real code skips, the hand-written dependency relation "
+                   "Affects is false) with skip_sound_table_witness for the one recorded exception. The model equals the real functions "
+                   "on the whole single-key domain (386k evaluations regenerated from /repo on every run, decide +kernel). (b) "
+                   "convergence (ProtocolV2): over an abstract generator, an abstract PARTIALLY REBUILT snapshot and a decision that reads "
+                   "the world a proxy was last synced at, for every finite history and every batching/interleaving every quiescent state "
+                   "has every client holding gen(build finalWorld) - what a fresh control plane generates - provided RebuildOK (partial "
+                   "rebuild = from-scratch build) and SkipOK/ModelFrame (skips are sound for the generators); skip_preserves; "
+                   "convergence_model instantiates the decision with the modelled one over configuration-dependent proxy views and "
+                   "reduces multi-key merged requests to single-key decisions (convergence_model_static_view is the weaker first "
+                   "version for fixed views). RebuildOK and ModelFrame for the REAL code are validated, not proved: rebuild stream "
+                   "(real updateContext vs createNewContext through the real generators), edsnarrow stream, and long-lived clients vs "
+                   "fresh clients vs a cold-started second server after histories over every config kind of the quantifier."),
+    "level_note": ("Partial: the generators, the rebuilt indexes and the xDS cache are not modelled (covered by the rebuild / edsnarrow / "
+                   "converge / e2e differentials: sidecar, router, waypoint, ztunnel-like clients, CDS/EDS/LDS/RDS/NDS/WDS/WAUTH, SotW + "
+                   "delta in e2e); WDS/WorkloadAuthorization decisions are not in the model. Trusted: Lean kernel + {propext, Quot.sound}; "
+                   "the hand-written model (tied by the exhaustive table and the needs/edsnarrow streams); Spec.Affects (written from the "
+                   "generators, a cross-check of the table only); pilot/pkg/xds/zz_verif_c01.go; feature flags at defaults. Two defects "
+                   "found and fixed in /repo (3f2fe0c, 7cce3d7); four known findings (stale SAN after scale-to-zero, stale disable_mx in "
+                   "ambient interop, EDS not pushed when a Sidecar/VS switches the service of a host, provider services outside the "
+                   "per-proxy dependency set), each recognised by its input class and field, so that regressions touching the same field "
+                   "are still violations."),
+    "technique": ("Lean 4 theorems over an exact model of the push-decision logic and an abstract convergence protocol with partial "
+                  "rebuild + exhaustive generated decision table (decide +kernel) + differential correspondence + "
+                  "updateContext-vs-createNewContext and cold-start differentials on real servers"),
     "design_ref": "DESIGN.md section 5 C01",
 }
